@@ -2,6 +2,7 @@ package clustersim
 
 import (
 	"context"
+	"encoding/json"
 	"fmt"
 	"os"
 	"path/filepath"
@@ -108,6 +109,7 @@ func genC07(tier string, seed uint64) *simkit.Plan {
 	p.SetKnob("order", int64(r.Intn(1<<30)))
 	// settings that have nothing to do with trust must not change who is served
 	p.SetKnob("tracing", int64(r.Intn(2)))
+	p.SetKnob("cfgpath", int64(r.Intn(2)))
 	n := r.Range(1, 4)
 	for i := 0; i < n; i++ {
 		p.AddStep(Step{Op: "walk", N: r.Intn(1 << 30)})
@@ -207,19 +209,42 @@ func execC07(plan *simkit.Plan, run *simkit.Run) {
 		if err != nil {
 			panic(err)
 		}
-		cfg := &crdt.Config{}
-		cfg.Default()
-		cfg.ClusterName = "c07"
-		cfg.TrustAll = false // what loading a configuration does unless "*" is listed (Default() alone says true)
+		// the trust configuration goes through the real loading paths: the JSON
+		// section of service.json, or the defaults overridden from the environment
+		// (CLUSTER_CRDT_TRUSTEDPEERS: init, docker and follower set-ups)
+		var listed []string
 		switch plan.Scenario {
 		case "crdt_list":
-			cfg.TrustedPeers = []peer.ID{ids[1]}
+			listed = []string{ids[1].Pretty()}
 			trusted[1] = true
 		case "crdt_empty":
-			cfg.TrustedPeers = nil
+			listed = []string{}
 		case "crdt_all":
-			cfg.TrustAll = true
+			listed = []string{"*"}
 			trusted[1], trusted[2] = true, true
+		}
+		cfg := &crdt.Config{}
+		switch plan.Knob("cfgpath", 0) {
+		case 0:
+			js, _ := json.Marshal(map[string]interface{}{"cluster_name": "c07", "trusted_peers": listed})
+			if err := cfg.LoadJSON(js); err != nil {
+				panic(err)
+			}
+			run.Probe("trust_config_from_json")
+		default:
+			cfg.Default()
+			cfg.ClusterName = "c07"
+			os.Setenv("CLUSTER_CRDT_TRUSTEDPEERS", strings.Join(listed, ","))
+			err := cfg.ApplyEnvVars()
+			os.Unsetenv("CLUSTER_CRDT_TRUSTEDPEERS")
+			if err != nil {
+				panic(err)
+			}
+			if len(listed) == 0 {
+				// an empty variable cannot express "nobody": that set-up is JSON only
+				cfg.TrustAll, cfg.TrustedPeers = false, nil
+			}
+			run.Probe("trust_config_from_env")
 		}
 		c, err := crdt.New(h0, dht, ps, cfg, store)
 		if err != nil {
